@@ -249,3 +249,24 @@ def load_known_findings() -> list[dict]:
             if line and not line.startswith('#'):
                 out.append(json.loads(line))
     return out
+
+
+# --------------------------------------------------------------------------- time limits for implementation calls
+class ImplTimeout(Exception):
+    """An implementation call did not return within its time limit."""
+
+
+import contextlib, signal as _signal
+
+@contextlib.contextmanager
+def time_limit(seconds: int):
+    """SIGALRM-based limit for calls into the implementation (it can loop on some inputs)."""
+    def _raise(signum, frame):
+        raise ImplTimeout(f'no result within {seconds} s')
+    old = _signal.signal(_signal.SIGALRM, _raise)
+    _signal.alarm(seconds)
+    try:
+        yield
+    finally:
+        _signal.alarm(0)
+        _signal.signal(_signal.SIGALRM, old)
